@@ -12,7 +12,7 @@ WRITE_OPS = ('start_write', 'try_start_write', 'try_upgrade_to_write', 'end_writ
 
 RULES = ('R1-double-acquire', 'R1-release-not-held', 'R1-release-not-owned', 'R1-base-reassigned', 'R1-transfer-unlocked',
          'R1-drain-incomplete', 'R1-exit-with-lock', 'R1-exit-undrained', 'R3-callee-precondition',
-         'R3-store-outside-write-phase', 'R4-root-release-kind')
+         'R3-store-outside-write-phase', 'R4-root-release-kind', 'R2-result-from-unvalidated-read', 'R5-locked-pointer-rechecked')
 
 
 def insert_store_rule(key):
@@ -116,7 +116,7 @@ def analyse_unit(rep, u, classes, label_prefix=''):
         is_insert = f.name == 'insert'
         pc = [p['name'] for p in f.d['params'] if 'std::vector<' in p['t'] and 'node *' in p['t']]
         try:
-            cl, res = lockflow.analyse(f, param_containers=pc, store_rules=[insert_store_rule] if is_insert else None)
+            cl, res = lockflow.analyse(f, param_containers=pc, store_rules=[insert_store_rule] if is_insert else None, lease_rule=is_insert)
         except facts.Broken as e:
             rep.analysis_broken(str(e))
             continue
@@ -131,7 +131,7 @@ def analyse_unit(rep, u, classes, label_prefix=''):
         for rule in RULES:
             if rule.startswith('R3-store') and not is_insert:
                 continue
-            if rule.startswith('R4') and not is_insert:
+            if (rule.startswith('R4') or rule.startswith('R2-result') or rule.startswith('R5')) and not is_insert:
                 continue
             msgs = byrule.get(rule, [])
             rep.ob(rule, '%s::%s' % (label, f.name), not msgs, f.where, ' | '.join(msgs[:3]),
